@@ -1100,6 +1100,22 @@ func (m *Nitro) StoreToDisk(dir string, snap *Snapshot, concurr int, itmCallback
 	return err
 }
 
+// hasDuplicate reports whether a backup manifest names a file twice. StoreToDisk
+// writes every shard under its own name; a repeated name means the manifest
+// is damaged, and the shard checksums (an XOR of item checksums, equal for
+// many shards of regularly spaced keys) cannot be relied upon to notice that
+// one shard is loaded twice and another not at all.
+func hasDuplicate(files []string) bool {
+	seen := make(map[string]bool, len(files))
+	for _, f := range files {
+		if seen[f] {
+			return true
+		}
+		seen[f] = true
+	}
+	return false
+}
+
 // LoadFromDisk restores Nitro from a disk backup
 func (m *Nitro) LoadFromDisk(dir string, concurr int, callb ItemCallback) (*Snapshot, error) {
 	var wg sync.WaitGroup
@@ -1128,6 +1144,9 @@ func (m *Nitro) LoadFromDisk(dir string, concurr int, callb ItemCallback) (*Snap
 	}
 	if err = json.Unmarshal(bs, &files); err != nil {
 		return nil, err
+	}
+	if hasDuplicate(files) {
+		return nil, ErrCorruptSnapshot
 	}
 
 	// Backups written before checksums were introduced have no checksums.json
@@ -1240,6 +1259,9 @@ func (m *Nitro) LoadFromDisk(dir string, concurr int, callb ItemCallback) (*Snap
 		if bs, err := ioutil.ReadFile(filepath.Join(deltadir, "files.json")); err == nil {
 			if err = json.Unmarshal(bs, &files); err != nil {
 				return nil, err
+			}
+			if hasDuplicate(files) {
+				return nil, ErrCorruptSnapshot
 			}
 		} else if !os.IsNotExist(err) {
 			return nil, err
